@@ -208,7 +208,8 @@ func (s *state) walk(node ast.Node) {
 
 	// Arithmetic operators ----------
 	case *ast.NegateNode:
-		s.js("(-", node.Arg, ")")
+		// the space keeps a negative number (a global's value) from making "--"
+		s.js("(- ", node.Arg, ")")
 	case *ast.AddNode:
 		s.op("+", node)
 	case *ast.SubNode:
